@@ -25,15 +25,27 @@ RULE = ("plain text: EVERY string up to length L over {a, space, tab, {, }, %, #
         "True and False, with and without surrounding text) x finalize (none | plain | "
         "pass_context | pass_eval_context | pass_environment callable that brackets its "
         "argument): text, comments and raw bodies are not expression results, so the output "
-        "must be the same as without escaping/finalize. distinct = each exhaustive string that contains a line "
+        "must be the same as without escaping/finalize. environment histories: random operation "
+        "sequences over several environments alive in one process - construct (1-3 of the 6 "
+        "newline configurations per history, so equal configurations meet; options unrelated to "
+        "text varied), overlay() with/without newline overrides, attribute assignment BEFORE the "
+        "first template (legal: the assigned options count) and AFTER use (documented undefined "
+        "behaviour for THAT environment: it keeps rendering but is never judged), delete + gc, "
+        "re-create, renders of random texts/templates with line breaks interleaved in any order; "
+        "all environments of a history share a family (default | never-matching line statement / "
+        "line comment prefix unique to the history, so histories do not share configuration with "
+        "each other) and every judged render must equal the model for the rendering environment's "
+        "OWN options. distinct = each exhaustive string that contains a line "
         "break or a partial delimiter character (len<=5) / each random source / each (source, "
-        "mode) cell of the systematic mode table; a case is "
+        "mode) cell of the systematic mode table / each history operation shape; a case is "
         "non-trivial when it contains a line break, a delimiter character or a tag")
 TECHNIQUE = ("reference-model monitor (newline split/join model) over exhaustive short strings + "
-             "random templates, crossed with an escaping-mode x finalize table")
+             "random templates, crossed with an escaping-mode x finalize table; stateful random "
+             "histories over several coexisting environments judged per environment")
 LEVEL_TEXT = ("held for every plain string up to the reported length in all 6 newline "
               "configurations and on the random texts/templates generated; the escaping/finalize "
-              "table is exhaustive over its modes for the fixed short sources only")
+              "table is exhaustive over its modes for the fixed short sources only; environment "
+              "independence held on the random histories generated (<= 6 environments each)")
 ASSUMPTIONS = [
     "default delimiters, no line statements, trim_blocks/lstrip_blocks off (C12 covers them)",
     "line breaks inside a raw block may come out verbatim or converted to newline_sequence "
@@ -45,13 +57,22 @@ ASSUMPTIONS = [
     "api.rst finalize: 'process the result of a variable expression'); the workload contains no "
     "expressions, so any difference to the plain rendering is a violation; whether finalize is "
     "CALLED is not observed, only the output",
+    "api.rst Environment: 'may be modified if they are not shared and if no template was loaded "
+    "so far. Modifications ... after the first template was loaded will lead to surprising "
+    "effects and undefined behavior': newline options assigned before an environment's first "
+    "template are its options; an environment reassigned after use (and any overlay that is "
+    "assigned to at all) is never judged again, is never used as overlay parent, and an "
+    "environment with overlays is never reassigned; every other environment is judged as if "
+    "alone in the process",
+    "a line statement / line comment prefix containing '@' never matches the generated sources "
+    "(no '@' in any alphabet), so it does not change what the documentation prescribes for them",
 ]
 NSHARDS = {"quick": 16, "thorough": 16}
 BUDGET_S = {"quick": 12, "thorough": 540}
 EXH_LEN = {"quick": 5, "thorough": 6}
 FLOORS = {
     # lengths <= 4 (quick) / <= 5 (thorough) are never time-boxed: 10.8k / 108k strings x 6 configs
-    "quick": {"evaluations": 70000, "distinct": 9000,
+    "quick": {"evaluations": 61000, "distinct": 9000,
               "counters": {"exh_strings": 10000, "exh_renders": 60000, "random_text_renders": 4000,
                            "template_renders": 4000, "comment_segments": 700,
                            "raw_segments": 700, "trailing_break_cases": 2000,
@@ -62,7 +83,15 @@ FLOORS = {
                            "mode_renders_html_metachar": 4000,
                            "mode_renders_runtime_autoescape_block": 2500,
                            "mode_renders_runtime_block_on_html_metachar": 1100,
-                           "mode_systematic_cells": 2000}},
+                           "mode_systematic_cells": 2000,
+                           "history_runs": 180, "history_judged_renders": 1500,
+                           "history_judged_equal_cfg_reassigned_elsewhere": 350,
+                           "history_judged_overlay_renders": 220,
+                           "history_judged_assigned_before_use_renders": 220,
+                           "history_judged_recreated_after_delete": 120,
+                           "history_judged_equal_cfg_deleted_earlier": 250,
+                           "history_judged_with_sibling_equal_cfg": 900,
+                           "history_default_family_runs": 24}},
     "thorough": {"evaluations": 700000, "distinct": 80000,
                  "counters": {"exh_strings": 100000, "exh_renders": 600000,
                               "random_text_renders": 30000, "template_renders": 30000,
@@ -76,7 +105,15 @@ FLOORS = {
                               "mode_renders_html_metachar": 20000,
                               "mode_renders_runtime_autoescape_block": 12000,
                               "mode_renders_runtime_block_on_html_metachar": 5000,
-                              "mode_systematic_cells": 2000}},
+                              "mode_systematic_cells": 2000,
+                              "history_runs": 3600, "history_judged_renders": 30000,
+                              "history_judged_equal_cfg_reassigned_elsewhere": 7000,
+                              "history_judged_overlay_renders": 4400,
+                              "history_judged_assigned_before_use_renders": 4400,
+                              "history_judged_recreated_after_delete": 2500,
+                              "history_judged_equal_cfg_deleted_earlier": 5000,
+                              "history_judged_with_sibling_equal_cfg": 18000,
+                              "history_default_family_runs": 480}},
 }
 
 ALPHABET = "a \t{}%#-\n\r"
@@ -600,10 +637,304 @@ def run_modes_systematic(ctx, envs, pool):
     ctx.extra["mode_table_cells"] = idx if ctx.shard == 0 else 0
 
 
+# ------------------------------------------------------------------ environment histories
+# Several environments alive in one process: each one must render text per ITS OWN options
+# (constructor arguments, overlay() arguments, or attributes assigned BEFORE it loaded its first
+# template - api.rst: "Instances of this class may be modified if they are not shared and if no
+# template was loaded so far").  An environment whose options are reassigned AFTER it loaded a
+# template is in documented "undefined behavior" territory: it keeps being used (that is what
+# applications do) but is never judged; every OTHER environment still is.
+HIST_VARIANTS = {          # options that have nothing to do with template text
+    "plain": {},
+    "autoescape": {"autoescape": True},
+    "unoptimized": {"optimized": False},
+    "nocache": {"cache_size": 0},
+    "strict": {"undefined": "StrictUndefined"},
+    "ext": {"extensions": ["jinja2.ext.do", "jinja2.ext.loopcontrols"]},
+}
+HIST_FAMILIES = ("default", "stmt-prefix", "comment-prefix", "both-prefixes")
+_salt_counter = itertools.count()
+
+
+def family_kwargs(family, salt):
+    """Options shared by all environments of one history.  The line prefixes contain '@', which
+    no generated source contains, so they never match: the family only makes the environments of
+    one history differently configured from those of every other history in the process."""
+    kw = {}
+    if family in ("stmt-prefix", "both-prefixes"):
+        kw["line_statement_prefix"] = f"@@S{salt}@@"
+    if family in ("comment-prefix", "both-prefixes"):
+        kw["line_comment_prefix"] = f"@@C{salt}@@"
+    return kw
+
+
+def hist_source(rng):
+    """-> JSON-able source spec; sources end in / contain line breaks most of the time."""
+    if rng.random() < 0.5:
+        s = rand_text(rng, rng.choice([2, 5, 12]))
+        if rng.random() < 0.8:
+            s += rng.choice(BREAKS)
+        if not M.BREAK.search(s):
+            s = "l1" + rng.choice(BREAKS[:3]) + s
+        return {"kind": "plain", "src": s}
+    for _ in range(20):
+        segs = rand_template(rng)
+        if segs is not None and M.BREAK.search(M.source_of(segs)):
+            return {"kind": "template", "segments": [list(x) for x in segs]}
+    return {"kind": "template", "segments": [list(x) for x in rng.choice(FIXED_TEMPLATES[:3])]}
+
+
+def gen_history(rng):
+    """-> (family, ops).  ops: ["new", slot, nl, keep, variant] | ["overlay", slot, parent, nl|None,
+    keep|None] | ["assign", slot, attr, value] | ["render", slot, source] | ["del", slot] | ["gc"]."""
+    family = rng.choice(HIST_FAMILIES + HIST_FAMILIES[1:])
+    cfgs = rng.sample(CONFIGS, rng.choice([1, 2, 2, 3]))
+    ops, live, nslot = [], {}, 0          # live: slot -> {"children", "overlay", "tainted"}
+    gc_left = 1 if rng.random() < 0.3 else 0
+    for step in range(rng.randint(8, 22)):
+        k = rng.random()
+        cand = sorted(live)
+        if not cand or (k < 0.22 and len(cand) < 5):
+            nl, keep = rng.choice(cfgs)
+            ops.append(["new", nslot, nl, keep, rng.choice(sorted(HIST_VARIANTS))])
+            live[nslot] = {"children": False, "overlay": False, "tainted": False}
+            nslot += 1
+        elif k < 0.30 and len(cand) < 6:
+            parents = [c for c in cand if not live[c]["tainted"]]
+            if not parents:
+                continue
+            par = rng.choice(parents)
+            nl = rng.choice([None, None] + [c[0] for c in cfgs])
+            keep = rng.choice([None, None] + [c[1] for c in cfgs] + [True, False])
+            ops.append(["overlay", nslot, par, nl, keep])
+            live[par]["children"] = True
+            live[nslot] = {"children": False, "overlay": True, "tainted": False}
+            nslot += 1
+        elif k < 0.45:
+            victims = [c for c in cand if not live[c]["children"]]
+            if not victims:
+                continue
+            v = rng.choice(victims)
+            if rng.random() < 0.5:
+                ops.append(["assign", v, "newline_sequence", rng.choice(["\n", "\r\n", "\r"])])
+            else:
+                ops.append(["assign", v, "keep_trailing_newline", rng.random() < 0.5])
+            if rng.random() < 0.5:       # both options, as a reconfiguration hook would
+                ops.append(["assign", v, "keep_trailing_newline", rng.random() < 0.5])
+        elif k < 0.52 and len(cand) > 1:
+            v = rng.choice(cand)
+            ops.append(["del", v])
+            del live[v]
+            if gc_left and rng.random() < 0.5:
+                gc_left -= 1
+                ops.append(["gc"])
+        else:
+            ops.append(["render", rng.choice(cand), hist_source(rng)])
+    # every environment that is still alive renders once more at the end
+    for c in sorted(live):
+        ops.append(["render", c, hist_source(rng)])
+    return family, ops
+
+
+def exec_history(family, ops, salt):
+    """Run the operations; -> (failures, stats).  A failure is a render on a judged environment
+    whose output is not what that environment's own options prescribe."""
+    import gc
+
+    import jinja2
+
+    fkw = family_kwargs(family, salt)
+    slots, failures = {}, []
+    reassigned_cfgs = []        # configurations some environment was USED with before it was reassigned
+    deleted_cfgs = []
+    st = {"judged": 0, "unjudged": 0, "judged_overlay": 0, "judged_preassigned": 0,
+          "judged_equal_cfg_reassigned_elsewhere": 0, "judged_recreated_after_delete": 0,
+          "judged_with_sibling_equal_cfg": 0, "judged_equal_cfg_deleted_earlier": 0, "envs": 0, "deletes": 0, "assign_after_use": 0,
+          "assign_before_use": 0}
+    for i, op in enumerate(ops):
+        what = op[0]
+        if what == "new":
+            _, slot, nl, keep, variant = op
+            kw = dict(HIST_VARIANTS[variant])
+            if "undefined" in kw:
+                kw["undefined"] = getattr(jinja2, kw["undefined"])
+            env = jinja2.Environment(newline_sequence=nl, keep_trailing_newline=keep, **fkw, **kw)
+            slots[slot] = {"env": env, "own": (nl, keep), "used": False, "tainted": False,
+                           "kind": "constructed", "recreated": (nl, keep) in deleted_cfgs}
+            st["envs"] += 1
+        elif what == "overlay":
+            _, slot, par, nl, keep = op
+            if par not in slots or slots[par]["tainted"]:
+                continue
+            p = slots[par]
+            kw = {}
+            if nl is not None:
+                kw["newline_sequence"] = nl
+            if keep is not None:
+                kw["keep_trailing_newline"] = keep
+            env = p["env"].overlay(**kw)
+            own = (p["own"][0] if nl is None else nl, p["own"][1] if keep is None else keep)
+            slots[slot] = {"env": env, "own": own, "used": False, "tainted": False,
+                           "kind": "overlay", "recreated": own in deleted_cfgs,
+                           "parent_used": p["used"]}
+            p["children"] = True
+            st["envs"] += 1
+        elif what == "assign":
+            _, slot, attr, value = op
+            if slot not in slots or slots[slot].get("children"):
+                continue
+            s = slots[slot]
+            if s["used"] or s["kind"] == "overlay":
+                if s["used"] and not s["tainted"]:
+                    reassigned_cfgs.append(s["own"])
+                elif s["used"]:
+                    reassigned_cfgs.append((s["env"].newline_sequence, s["env"].keep_trailing_newline))
+                s["tainted"] = True          # undefined behaviour for THIS environment from now on
+                st["assign_after_use"] += 1
+            else:
+                nl, keep = s["own"]
+                s["own"] = (value, keep) if attr == "newline_sequence" else (nl, value)
+                s["kind"] = "assigned-before-use"
+                st["assign_before_use"] += 1
+            setattr(s["env"], attr, value)
+        elif what == "del":
+            if op[1] in slots:
+                deleted_cfgs.append(slots[op[1]]["own"])
+                del slots[op[1]]
+                st["deletes"] += 1
+        elif what == "gc":
+            gc.collect()
+        elif what == "render":
+            _, slot, spec = op
+            if slot not in slots:
+                continue
+            s = slots[slot]
+            if spec["kind"] == "plain":
+                src = spec["src"]
+                exps = {M.plain_expected(src, *s["own"])}
+            else:
+                segs = [tuple(x) for x in spec["segments"]]
+                src = M.source_of(segs)
+                exps = M.expected(segs, *s["own"])
+            assert "@" not in src
+            got = render(s["env"], src)
+            s["used"] = True
+            if s["tainted"]:
+                st["unjudged"] += 1
+                continue
+            st["judged"] += 1
+            if s["kind"] == "overlay":
+                st["judged_overlay"] += 1
+            if s["kind"] == "assigned-before-use":
+                st["judged_preassigned"] += 1
+            if s["own"] in reassigned_cfgs:
+                st["judged_equal_cfg_reassigned_elsewhere"] += 1
+            if s["recreated"]:
+                st["judged_recreated_after_delete"] += 1
+            if s["own"] in deleted_cfgs:
+                st["judged_equal_cfg_deleted_earlier"] += 1
+            if any(o is not s and o["own"] == s["own"] for o in slots.values()):
+                st["judged_with_sibling_equal_cfg"] += 1
+            if not (got[0] == "ok" and got[1] in exps):
+                failures.append({"op": i, "kind": s["kind"], "own": s["own"], "src": src,
+                                 "got": got, "exps": exps,
+                                 "mismatch": tmpl_mode(None, got, exps)})
+    return failures, st
+
+
+HIST_CLASSES = {
+    "reassign-after-use": lambda op, ctxt: op[0] == "assign" and ctxt["used"].get(op[1]),
+    "assign-before-use": lambda op, ctxt: op[0] == "assign" and not ctxt["used"].get(op[1]),
+    "delete": lambda op, ctxt: op[0] in ("del", "gc"),
+    "overlay": lambda op, ctxt: op[0] == "overlay",
+}
+
+
+def without_class(ops, cls):
+    pred, out, used = HIST_CLASSES[cls], [], {}
+    for op in ops:
+        if op[0] == "render":
+            used[op[1]] = True
+        if not pred(op, {"used": used}):
+            out.append(op)
+    return out
+
+
+def history_key(family, ops, fail):
+    """Mechanism: judged environment kind + mismatch class + which operation classes the
+    history needs for the mismatch to appear (each class is dropped in turn and the history is
+    re-executed with a fresh family salt, i.e. with environments no earlier history shares
+    configuration with)."""
+    fam = family if family != "default" else "both-prefixes"
+    same = lambda fs: any(f["mismatch"] == fail["mismatch"] for f in fs)  # noqa: E731
+    alone = [["new", 0, fail["own"][0], fail["own"][1], "plain"], ["render", 0, ops[fail["op"]][2]]]
+    if same(exec_history(fam, alone, f"k{next(_salt_counter)}")[0]):
+        # not a matter of several environments: the other sections report this mechanism
+        return f"history:{fail['mismatch']}:needs=nothing(one-fresh-environment-fails-alone)"
+    if not same(exec_history(fam, ops, f"k{next(_salt_counter)}")[0]):
+        return f"history:{fail['mismatch']}:needs=process-wide-state-of-earlier-histories"
+    needs, cur = [], ops
+    for cls in HIST_CLASSES:
+        trial = without_class(cur, cls)
+        if same(exec_history(fam, trial, f"k{next(_salt_counter)}")[0]):
+            cur = trial
+        else:
+            needs.append(cls)
+    return f"history:{fail['mismatch']}:needs=" + ("+".join(needs) or "several-environments-only")
+
+
+def check_history(ctx, family, ops, salt, counting=True):
+    failures, st = exec_history(family, ops, salt)
+    if counting:
+        ctx.count("history_runs")
+        ctx.count("history_environments", st["envs"])
+        ctx.count("history_judged_renders", st["judged"])
+        ctx.count("history_unjudged_renders_on_reassigned_env", st["unjudged"])
+        ctx.count("history_judged_overlay_renders", st["judged_overlay"])
+        ctx.count("history_judged_assigned_before_use_renders", st["judged_preassigned"])
+        ctx.count("history_judged_equal_cfg_reassigned_elsewhere",
+                  st["judged_equal_cfg_reassigned_elsewhere"])
+        ctx.count("history_judged_recreated_after_delete", st["judged_recreated_after_delete"])
+        ctx.count("history_judged_with_sibling_equal_cfg", st["judged_with_sibling_equal_cfg"])
+        ctx.count("history_judged_equal_cfg_deleted_earlier",
+                  st["judged_equal_cfg_deleted_earlier"])
+        ctx.count("history_reassign_after_use", st["assign_after_use"])
+        if family == "default":
+            ctx.count("history_default_family_runs")
+    ctx.ev(st["judged"])
+    if failures:
+        f = failures[0]
+        ctx.violation(history_key(family, ops, f),
+                      f"environment history ({family} family, {st['envs']} environments): operation "
+                      f"#{f['op']} renders {f['src']!r} on a {f['kind']} environment whose own "
+                      f"options are newline_sequence={f['own'][0]!r} keep_trailing_newline="
+                      f"{f['own'][1]}: got {f['got'][1]!r}, expected one of {sorted(f['exps'])!r}; "
+                      f"operations before it: "
+                      f"{[o if o[0] != 'render' else ['render', o[1]] for o in ops[:f['op']]]!r}",
+                      {"kind": "history", "family": family, "ops": ops})
+    shape = [o if o[0] != "render" else ["render", o[1], o[2]["kind"]] for o in ops]
+    ctx.dist(("h", family, shape))
+
+
+def run_histories(ctx, rng, n):
+    i = 0
+    while ctx.more(i, n, min(n, 12)):
+        family, ops = gen_history(rng)
+        check_history(ctx, family, ops, f"{ctx.shard}x{i}")
+        if i < 1 and ctx.shard == 0:
+            ctx.sample({"kind": "history", "family": family,
+                        "ops": [o if o[0] != "render" else ["render", o[1]] for o in ops]})
+        i += 1
+
+
+
 def run(ctx):
     envs = make_envs()
     pool = EnvPool()
     quick = ctx.tier == "quick"
+    # histories first: no other environment of this process has loaded a template yet, so the
+    # default-family histories start from a pristine process
+    run_histories(ctx, ctx.rng("hist"), 45 if quick else 900)
     for j, segs in enumerate(FIXED_TEMPLATES):
         if ctx.mine(j):
             check_template(ctx, envs, segs)
@@ -619,6 +950,9 @@ def run(ctx):
 
 
 def replay(ctx, case):
+    if case["kind"] == "history":
+        check_history(ctx, case["family"], case["ops"], "replay", counting=False)
+        return
     envs = make_envs()
     if case.get("mode"):
         pool = EnvPool()
